@@ -82,13 +82,15 @@ static void hostile_handshake(void)
 		vp_log("  H: valid request followed by %d bytes of garbage", e);
 	} else vp_log("  H: valid request, delivered in two pieces");
 	split = kind == 3 ? (size_t)(1 + vp_choose((int)wlen - 1, "split position")) : wlen;
-	after = vp_choose(3, "afterwards");        /* 0 close, 1 stay silent, 2 keep writing */
+	after = vp_choose(4, "afterwards");        /* 0 close, 1 stay silent, 2 keep writing, 3 stop reading at once (the answer cannot be delivered), close later */
 	base_fds = open_fd_count();
 	phase_hostile = 1;
 	fd = raw_connect();
 	if (split) send(fd, wire, split, MSG_NOSIGNAL);
+	if (after == 3 && split >= wlen) shutdown(fd, SHUT_RD);
 	nap(5);
 	if (split < wlen) send(fd, wire + split, wlen - split, MSG_NOSIGNAL);
+	if (after == 3 && split < wlen) shutdown(fd, SHUT_RD);
 	nap(5);
 	if (after == 2) { int i; memset(hb, 0x41, 4096); for (i = 0; i < 6; i++) { send(fd, hb, 4096, MSG_NOSIGNAL); nap(5); }   /* 24 KiB: more than any buffer of the handshake code */ }
 	if (after == 1) nap(3000);
